@@ -54,7 +54,9 @@ class Site:
         self.fn = fn
         self.kind = kind
         self.term = term
-        self.nterm = nterm if nterm is not None else term
+        # borrow and deref markers are dropped from the key: `x.len()` inside a closure (captured by reference) and in
+        # the enclosing function must give the same key
+        self.nterm = (nterm if nterm is not None else term).replace("&", "").replace("*", "")
         self.bb = bb
         self.idx = idx
         self.ln = ln
